@@ -198,6 +198,19 @@ func (m *Machine) ev(e *E, in []*val.V, c Ctx) []*val.V {
 			rdesc(n, e.Op == "rdesc3", &out)
 		}
 		return out
+	case "keyof":
+		// (E | key) for results of E that are values of map entries below the context node: the key node of that entry
+		var out []*val.V
+		for _, n := range in {
+			for _, r := range m.ev(e.A[0], []*val.V{n}, c) {
+				k := keyNodeOf(n, r)
+				if k == nil {
+					undef("key of something that is not the value of a map entry below the context node")
+				}
+				out = append(out, k)
+			}
+		}
+		return out
 	case "slice":
 		var out []*val.V
 		for _, n := range in {
@@ -769,6 +782,27 @@ func (m *Machine) splat(n *val.V, c Ctx) []*val.V {
 		return nil
 	case val.Seq, val.Map:
 		return append([]*val.V{}, n.Vals...)
+	}
+	return nil
+}
+
+func keyNodeOf(root, target *val.V) *val.V {
+	switch root.K {
+	case val.Seq:
+		for _, v := range root.Vals {
+			if k := keyNodeOf(v, target); k != nil {
+				return k
+			}
+		}
+	case val.Map:
+		for i, v := range root.Vals {
+			if v == target {
+				return root.Keys[i]
+			}
+			if k := keyNodeOf(v, target); k != nil {
+				return k
+			}
+		}
 	}
 	return nil
 }
